@@ -8,3 +8,5 @@ import RdfModel.Props.C17Facts
 import RdfModel.Props.C19Facts
 
 import RdfModel.Props.C12
+import RdfModel.Model.RdfJson
+import RdfModel.Props.C01RJ
